@@ -4,8 +4,35 @@ use cf::{diff, emit, features, gen, model::*, parse, project};
 use common::{par::*, report::{finish, Meta}, *};
 use std::io::Cursor;
 
+/// Hooked state (duke feature `verif`): the reader reports where each of its two passes over a method body sees an instruction start.
+/// The passes are written independently (an operand-size table each); the second one trusts the first ("the first pass made sure all n
+/// entries are there"), so they must agree on every boundary. Returns the number of method bodies compared, or the first disagreement.
+fn pass_agreement(events: &[duke::verif::Event]) -> Result<usize, String> {
+    let mut runs: Vec<(u8, Vec<u16>)> = vec![];
+    for e in events {
+        if let duke::verif::Event::InstructionStart { pass, pos } = e {
+            match runs.last_mut() { Some((p, v)) if p == pass && *pos != 0 => v.push(*pos), _ => runs.push((*pass, vec![*pos])) }
+        }
+    }
+    let mut compared = 0;
+    let mut it = runs.chunks(2);
+    for pair in &mut it {
+        match pair {
+            [(1, a), (2, b)] => { if a != b { let k = a.iter().zip(b.iter()).position(|(x, y)| x != y).unwrap_or(a.len().min(b.len())); return Err(format!("method body #{compared}: instruction #{k} starts at {:?} for the first pass and at {:?} for the second ({} / {} instructions)", a.get(k), b.get(k), a.len(), b.len())); } compared += 1; }
+            other => return Err(format!("method body #{compared}: passes not paired: {:?}", other.iter().map(|(p, v)| (*p, v.len())).collect::<Vec<_>>())),
+        }
+    }
+    Ok(compared)
+}
+
 fn read_real(bytes: &[u8]) -> Result<Result<Class, String>, PanicInfo> {
     guard(|| {
+        if bytes.len() <= 16 * 1024 {
+            duke::verif::start_recording();
+            let r = duke::read_class(&mut Cursor::new(bytes));
+            let ev = duke::verif::take_events();
+            if r.is_ok() { match pass_agreement(&ev) { Err(e) => PASS_DISAGREE.with(|c| *c.borrow_mut() = Some(e)), Ok(n) => PASSES_COMPARED.with(|c| c.set(c.get() + n)) } }
+        }
         // every third input is delivered through a reader that returns short reads (legal for any `Read`)
         let r = if common::rng::fnv(bytes) % 3 == 0 { duke::read_class(&mut common::io::ChunkedReader::new(bytes, common::rng::fnv(bytes), 1 + (bytes.len() % 9))) } else { duke::read_class(&mut Cursor::new(bytes)) };
         match r {
@@ -14,6 +41,8 @@ fn read_real(bytes: &[u8]) -> Result<Result<Class, String>, PanicInfo> {
         }
     })
 }
+
+thread_local! { static PASSES_COMPARED: std::cell::Cell<usize> = const { std::cell::Cell::new(0) }; static PASS_DISAGREE: std::cell::RefCell<Option<String>> = const { std::cell::RefCell::new(None) }; }
 
 fn template(msg: &str) -> String {
     // error message with instance data removed: quoted strings, numbers
@@ -29,7 +58,9 @@ fn template(msg: &str) -> String {
 
 /// compares the observation with the expected model; every difference becomes a violation with a fact-path signature
 fn judge(rep: &mut Report, what: &str, expected: &Class, bytes: &[u8], layout: &str) {
-    match read_real(bytes) {
+    let r = read_real(bytes);
+    if let Some(e) = PASS_DISAGREE.with(|c| c.borrow_mut().take()) { rep.violation("C01 reader: the label pass and the decoding pass disagree on where the instructions of a method start", json!({"input_hex": hex(bytes), "layout": layout, "detail": e, "source": what})); }
+    match r {
         Err(p) => rep.violation(format!("C01 reader panic {}", p.site()), json!({"input_hex": hex(bytes), "layout": layout, "panic": p.message, "at": format!("{}:{}", p.file, p.line)})),
         Ok(Err(e)) => rep.violation(format!("C01 reader rejects well-formed class: {}", template(e.rsplit(": ").next().unwrap_or(&e))), json!({"input_hex": hex(bytes), "layout": layout, "error": e, "source": what})),
         Ok(Ok(obs)) => {
@@ -39,6 +70,7 @@ fn judge(rep: &mut Report, what: &str, expected: &Class, bytes: &[u8], layout: &
                     rep.violation(format!("C01 fact {}", d.signature()), json!({"input_hex": hex(bytes), "layout": layout, "at": d.at, "expected": d.expected, "observed": d.observed, "source": what}));
                 }
             } else { rep.count("reads.equal"); }
+            let n = PASSES_COMPARED.with(|c| c.replace(0)); if n > 0 { rep.add("hook.method_bodies_with_both_passes_compared", n as u64); }
         }
     }
 }
